@@ -30,10 +30,15 @@ def sh(cmd, cwd=None, env=None, timeout=1800):
     return p.returncode, out
 
 
+TAG = ""
+
+
 def main():
     pid = sys.argv[1]
     src = sys.argv[2]
     suite = "--no-suite" not in sys.argv
+    global TAG
+    TAG = next((a.split("=", 1)[1] for a in sys.argv if a.startswith("--tag=")), "")
     base = "/tmp/tryseed"
     os.makedirs(base, exist_ok=True)
     for k in sorted(os.listdir(src)):
@@ -108,7 +113,7 @@ def main():
 
 
 def save(pid, k, d, rec):
-    out = os.path.join(V, "seeded", "%s-%s" % (pid, k))
+    out = os.path.join(V, "seeded", "%s-%s%s" % (pid, TAG, k))
     os.makedirs(out, exist_ok=True)
     for f in ("patch.diff", "demo.py"):
         if os.path.exists(os.path.join(d, f)):
